@@ -242,6 +242,7 @@ static void sub_hugerand(const args_t *a, long c, rng_t *r)
 		{2, 1, (1ULL << 30) + 4096}, {2, 0, (560ULL << 20) + 17},
 		{2, 0, (520ULL << 20) + 1}, {2, 6, (1ULL << 30) + 77}, {2, 0, (1ULL << 31) + 4096}, {1, -10000, (1ULL << 30) + 4096}, {3, -10000, (1ULL << 30) + 4096},
 		{4, 3, (600ULL << 20) + 5}, {5, 1, (1ULL << 30) + 4096}, {1, -10000, (1ULL << 31) + 4096},
+		{3, -10000, 0x7E000000ULL},        /* the largest input liblz4 takes: incompressible, its compressed form is larger than that */
 	};
 	int idx = (int)(c % (long)(sizeof K / sizeof K[0]));
 	uint64_t n = K[idx].n; int alg = K[idx].alg, level = K[idx].level;
